@@ -56,6 +56,85 @@ pub proof fn lemma_val_agree(t: Tree, e1: Env, e2: Env)
     }
 }
 
+// ---------- canonicity (C01) for multi-terminal diagrams ----------
+pub open spec fn upd(env: Env, l: int, v: bool) -> Env { |i: int| if i == l { v } else { env(i) } }
+pub proof fn lemma_val_upd(t: Tree, env: Env, l: int, b: bool)
+    requires wf(t), l < top(t),
+    ensures val_at(t, upd(env, l, b)) == val_at(t, env),
+{
+    lemma_val_agree(t, upd(env, l, b), env);
+}
+//@lemma name=distinguish props=C01
+pub proof fn distinguish(a: Tree, b: Tree) -> (env: Env)
+    requires wf(a), wf(b), a != b,
+    ensures val_at(a, env) != val_at(b, env),
+    decreases a, b,
+{
+    match (a, b) {
+        (Tree::Leaf(x), Tree::Leaf(y)) => { |i: int| true }
+        (Tree::Inner(l, a1, a0), _) if top(b) > l => {
+            if *a1 != b {
+                let e = distinguish(*a1, b);
+                lemma_val_upd(*a1, e, l as int, true); lemma_val_upd(b, e, l as int, true);
+                upd(e, l as int, true)
+            } else {
+                let e = distinguish(*a0, b);
+                lemma_val_upd(*a0, e, l as int, false); lemma_val_upd(b, e, l as int, false);
+                upd(e, l as int, false)
+            }
+        }
+        (Tree::Inner(l, a1, a0), Tree::Inner(k, b1, b0)) if k == l => {
+            if *a1 != *b1 {
+                let e = distinguish(*a1, *b1);
+                lemma_val_upd(*a1, e, l as int, true); lemma_val_upd(*b1, e, l as int, true);
+                upd(e, l as int, true)
+            } else {
+                let e = distinguish(*a0, *b0);
+                lemma_val_upd(*a0, e, l as int, false); lemma_val_upd(*b0, e, l as int, false);
+                upd(e, l as int, false)
+            }
+        }
+        (_, Tree::Inner(k, b1, b0)) => {
+            if a != *b1 {
+                let e = distinguish(a, *b1);
+                lemma_val_upd(a, e, k as int, true); lemma_val_upd(*b1, e, k as int, true);
+                upd(e, k as int, true)
+            } else {
+                let e = distinguish(a, *b0);
+                lemma_val_upd(a, e, k as int, false); lemma_val_upd(*b0, e, k as int, false);
+                upd(e, k as int, false)
+            }
+        }
+        _ => { assert(false); |i: int| true }
+    }
+}
+/// same value table <=> identical diagram <=> (hash-consing contract) equal handles
+//@lemma name=canonicity props=C01,C03
+pub proof fn canonicity(a: Tree, b: Tree)
+    requires wf(a), wf(b), forall|env: Env| val_at(a, env) == val_at(b, env),
+    ensures a == b,
+{
+    if a != b { let e = distinguish(a, b); assert(val_at(a, e) == val_at(b, e)); }
+}
+//@lemma name=handles_equal_iff_same_function props=C01
+pub proof fn handles_equal_iff_same_function<E: Edge>(x: E, y: E)
+    requires edge_ok::<E>(), wf(x.view()), wf(y.view()),
+    ensures x.eq_spec(&y) <==> (forall|env: Env| val_at(x.view(), env) == val_at(y.view(), env)),
+{
+    if forall|env: Env| val_at(x.view(), env) == val_at(y.view(), env) { canonicity(x.view(), y.view()); }
+}
+//@lemma name=add_vars_preserves_function props=C01,C16
+pub proof fn add_vars_preserves_function(t: Tree, n: int, e1: Env, e2: Env)
+    requires below(t, n), forall|i: int| i < n ==> #[trigger] e1(i) == e2(i),
+    ensures val_at(t, e1) == val_at(t, e2),
+    decreases t,
+{
+    match t {
+        Tree::Leaf(_) => {}
+        Tree::Inner(l, a, b) => { add_vars_preserves_function(*a, n, e1, e2); add_vars_preserves_function(*b, n, e1, e2); }
+    }
+}
+
 // ---------- terminal numbers: abstract values + the laws terminal_bin may use ----------
 pub trait NumberBase: Sized + Clone {
     spec fn val(&self) -> int;
